@@ -1,50 +1,314 @@
-"""genx_file.py — what the File model (coq/FileModel.v) takes from the text of src/File.c:
-whether File_Close tests for a closed File before calling fclose, whether it clears the handle
-on every path once fclose has been called, and whether each stdio wrapper still starts with the
-closed-handle test that raises IOError (the shape `on_open` of the model encodes)."""
+"""genx_file.py — what the File model (coq/FileModel.v) takes from the text of src/File.c.
+
+The facts are computed by a small statement-level analysis of the function bodies (not by matching
+one spelling), seeing through a static helper one level:
+
+  file_ops_guarded        in each of the 8 stream wrappers the closed test dominates everything else:
+                          the top-level statements are  declarations / aliases of the handle,  then the
+                          guard  `if (<handle> is NULL) { throw(IOError, ...` — or a call of a GUARD HELPER
+                          (a static function returning FILE* whose own body is: aliases, that guard,
+                          `return <handle>`) — and only then anything else.  The helper call may sit
+                          inside the first other statement as the stream argument (arguments are
+                          evaluated before the call they belong to; the other arguments are plain names).
+  file_format_direct      File_Format_To/_From: after the guard exactly `return vfprintf/vfscanf(<handle>, fmt, va);`
+  file_close_tests_closed File_Close: that guard precedes the fclose (direct, or inside a RELEASE HELPER:
+                          `FILE* x = f->file; f->file = NULL; return fclose(x);`)
+  file_close_clears_always  on every path that has called fclose, `f->file = NULL` is executed before any
+                          throw (it may precede the fclose when fclose is given a copy taken before)
+  file_del_open_shape     File_Del closes exactly when the handle is not NULL (`if (h isnt NULL) { File_Close(self); }`
+                          or `if (h is NULL) { return; } File_Close(self);`); File_Open closes an open File
+                          first, then fopen; the result is stored in the File and a NULL result raises IOError
+                          (stored before the test, or — the File is closed at that point, so its field IS
+                          NULL — stored only when it is not NULL).
+A fact that cannot be established is emitted as missing (None) or false, never guessed."""
 import re
+
+
+# ---------------------------------------------------------------- a tiny statement parser
+def norm(text):
+    """Cello keywords -> C operators, string literals emptied, white space removed inside tokens later."""
+    text = re.sub(r'"(?:[^"\\]|\\.)*"', '""', text)
+    for a, b in (('isnt', '!='), ('is', '=='), ('and', '&&'), ('or', '||'), ('not', '!')):
+        text = re.sub(r'\b%s\b' % a, b, text)
+    return text
+
+
+def squash(t):
+    return re.sub(r'\s+', '', t)
+
+
+def match_paren(t, i, op='(', cl=')'):
+    d = 0
+    for j in range(i, len(t)):
+        if t[j] == op: d += 1
+        elif t[j] == cl:
+            d -= 1
+            if d == 0: return j
+    return -1
+
+
+def parse(t):
+    """t = text inside a block -> list of statements:
+    ('if', cond, [then], [else] | None) | ('block', [stmts]) | ('s', squashed text without ';')"""
+    out = []
+    i = 0
+    n = len(t)
+    while i < n:
+        while i < n and t[i].isspace(): i += 1
+        if i >= n: break
+        m = re.match(r'if\s*\(', t[i:])
+        if m:
+            p = i + m.end() - 1
+            q = match_paren(t, p)
+            cond = squash(t[p + 1:q])
+            body, j = parse_body(t, q + 1)
+            els = None
+            m2 = re.match(r'\s*else\b', t[j:])
+            if m2:
+                els, j = parse_body(t, j + m2.end())
+            out.append(('if', cond, body, els))
+            i = j
+            continue
+        if t[i] == '{':
+            q = match_paren(t, i, '{', '}')
+            out.append(('block', parse(t[i + 1:q])))
+            i = q + 1
+            continue
+        # simple statement up to ';' at depth 0
+        d = 0; j = i
+        while j < n:
+            c = t[j]
+            if c in '([{': d += 1
+            elif c in ')]}': d -= 1
+            elif c == ';' and d == 0: break
+            j += 1
+        s = squash(t[i:j])
+        if s: out.append(('s', s))
+        i = j + 1
+    return out
+
+
+def parse_body(t, i):
+    """statement or block starting at t[i:] -> (list of statements, index after it)"""
+    while i < len(t) and t[i].isspace(): i += 1
+    if i < len(t) and t[i] == '{':
+        q = match_paren(t, i, '{', '}')
+        return parse(t[i + 1:q]), q + 1
+    m = re.match(r'if\s*\(', t[i:])
+    if m:
+        p = i + m.end() - 1
+        q = match_paren(t, p)
+        body, j = parse_body(t, q + 1)
+        m2 = re.match(r'\s*else\b', t[j:])
+        els = None
+        if m2: els, j = parse_body(t, j + m2.end())
+        return [('if', squash(t[p + 1:q]), body, els)], j
+    d = 0; j = i
+    while j < len(t):
+        c = t[j]
+        if c in '([{': d += 1
+        elif c in ')]}': d -= 1
+        elif c == ';' and d == 0: break
+        j += 1
+    s = squash(t[i:j])
+    return ([('s', s)] if s else []), j + 1
+
+
+def functions(src_text):
+    """name -> (return type, parameter text, parsed body) for the static functions of the file"""
+    fs = {}
+    for m in re.finditer(r'static\s+([A-Za-z_][\w\s\*]*?)\s*\b([A-Za-z_]\w*)\s*\(([^)]*)\)\s*\{', src_text):
+        i = m.end() - 1
+        q = match_paren(src_text, i, '{', '}')
+        if q < 0: continue
+        fs[m.group(2)] = (squash(m.group(1)), m.group(3), parse(norm(src_text[i + 1:q])))
+    return fs
+
+
+# ---------------------------------------------------------------- the analyses
+class Env:
+    def __init__(self):
+        self.objs = set()        # p with `struct File* p = self` (or the parameter of a helper)
+        self.handles = set()     # expressions denoting the FILE* of the object: p->file and local copies
+
+    def decl(self, s):
+        m = re.match(r'structFile\*(\w+)=self$', s)
+        if m:
+            self.objs.add(m.group(1)); self.handles.add(m.group(1) + '->file'); return True
+        m = re.match(r'FILE\*(\w+)=(.+)$', s)
+        if m and m.group(2) in self.handles:
+            self.handles.add(m.group(1)); return True
+        return False
+
+    def null_test(self, cond, positive=True):
+        """cond says the handle is NULL (positive) / is not NULL"""
+        for h in self.handles:
+            if positive and cond in (h + '==NULL', 'NULL==' + h, '!' + h): return True
+            if not positive and cond in (h + '!=NULL', 'NULL!=' + h, h): return True
+        return False
+
+
+def throws_ioerror(stmts):
+    return bool(stmts) and stmts[0][0] == 's' and stmts[0][1].startswith('throw(IOError,')
+
+
+def is_guard(st, env):
+    return st[0] == 'if' and env.null_test(st[1]) and throws_ioerror(st[2]) and st[3] is None
+
+
+def guard_helpers(fs):
+    """static FILE* H(var self, ...) { aliases; if (h is NULL) { throw(IOError ...) } return h; }"""
+    hs = set()
+    for name, (ret, params, body) in fs.items():
+        if ret != 'FILE*' or not re.match(r'\s*var\s+self\b', params): continue
+        env = Env(); k = 0
+        while k < len(body) and body[k][0] == 's' and env.decl(body[k][1]): k += 1
+        if k + 2 == len(body) and is_guard(body[k], env) and body[k + 1][0] == 's' and \
+           body[k + 1][1].startswith('return') and body[k + 1][1][6:] in env.handles:
+            hs.add(name)
+    return hs
+
+
+def release_helpers(fs):
+    """static int R(struct File* f) { FILE* x = f->file; f->file = NULL; return fclose(x); }"""
+    rs = set()
+    for name, (ret, params, body) in fs.items():
+        m = re.match(r'\s*struct\s+File\s*\*\s*(\w+)\s*$', params)
+        if ret != 'int' or not m or len(body) != 3: continue
+        p = m.group(1)
+        a = re.match(r'FILE\*(\w+)=%s->file$' % p, body[0][1]) if body[0][0] == 's' else None
+        if a and body[1] == ('s', '%s->file=NULL' % p) and body[2] == ('s', 'returnfclose(%s)' % a.group(1)):
+            rs.add(name)
+    return rs
+
+
+def wrapper_guarded(body, helpers):
+    """-> (ok, env, rest): the closed test dominates; rest = statements after the guard"""
+    env = Env(); k = 0
+    while k < len(body):
+        st = body[k]
+        if st[0] == 's' and env.decl(st[1]): k += 1; continue
+        if st[0] == 's':
+            m = re.match(r'FILE\*(\w+)=(\w+)\(self(?:,[^()]*)?\)$', st[1])
+            if m and m.group(2) in helpers:
+                env.handles.add(m.group(1))
+                return True, env, body[k + 1:]
+        if is_guard(st, env):
+            return True, env, body[k + 1:]
+        # the first other statement: acceptable only if the helper call is its stream argument and the
+        # handle is used nowhere else in it
+        if st[0] == 's':
+            calls = re.findall(r'(\w+)\(self(?:,"")?\)', st[1])
+            if len(calls) == 1 and calls[0] in helpers and not any(h in st[1] for h in env.handles):
+                env.handles.add(re.search(r'%s\(self(?:,"")?\)' % calls[0], st[1]).group(0))
+                return True, env, body[k:]
+        return False, env, body[k:]
+    return False, env, []
+
+
+def analyse_close(body, rel):
+    """-> (tests_closed, clears_always) each True / False / None"""
+    env = Env()
+    guarded = closed = cleared = False
+    tests = None; clears = None; bad_throw = False
+    for st in body:
+        if st[0] == 's' and env.decl(st[1]): continue
+        if not closed and is_guard(st, env): guarded = True; continue
+        if st[0] == 's':
+            s = st[1]
+            m = re.search(r'fclose\(([^()]*)\)', s)
+            if m:
+                arg = m.group(1)
+                direct = [h for h in env.handles if h.endswith('->file')]
+                if arg not in env.handles or (cleared and arg in direct): return None, None
+                closed = True; tests = guarded; continue
+            m = re.search(r'(\w+)\((\w+)\)', s)
+            if m and m.group(1) in rel and m.group(2) in env.objs:
+                closed = True; tests = guarded; cleared = True; continue
+            if any(s == h + '=NULL' for h in env.handles if h.endswith('->file')):
+                cleared = True; continue
+            if s.startswith('throw(') and closed and not cleared: bad_throw = True
+            continue
+        if st[0] == 'if' and closed and not cleared:
+            if 'throw(' in repr(st): bad_throw = True
+    if not closed: return None, None
+    clears = None if not cleared else (not bad_throw)
+    return tests, clears
+
+
+def analyse_del(body):
+    env = Env(); k = 0
+    while k < len(body) and body[k][0] == 's' and env.decl(body[k][1]): k += 1
+    rest = body[k:]
+    close = [('s', 'File_Close(self)')]
+    if len(rest) == 1 and rest[0][0] == 'if' and env.null_test(rest[0][1], False) and rest[0][2] == close and rest[0][3] is None:
+        return True
+    if len(rest) == 2 and rest[0][0] == 'if' and env.null_test(rest[0][1], True) and rest[0][2] == [('s', 'return')] \
+       and rest[0][3] is None and rest[1] == close[0]:
+        return True
+    return False
+
+
+def analyse_open(body):
+    env = Env(); k = 0
+    while k < len(body) and body[k][0] == 's' and env.decl(body[k][1]): k += 1
+    rest = body[k:]
+    if not rest or not (rest[0][0] == 'if' and env.null_test(rest[0][1], False) and rest[0][2] == [('s', 'File_Close(self)')] and rest[0][3] is None):
+        return False
+    rest = rest[1:]
+    field = [h for h in env.handles if h.endswith('->file')]
+    if len(field) != 1 or len(rest) < 3: return False
+    f = field[0]
+    # form 1: store, test, throw
+    if rest[0][0] == 's' and re.match(re.escape(f) + r'=fopen\(', rest[0][1]) and \
+       rest[1][0] == 'if' and rest[1][1] in (f + '==NULL', '!' + f) and throws_ioerror(rest[1][2]) and rest[1][3] is None and \
+       rest[2:] == [('s', 'returnself')]:
+        return True
+    # form 2: open into a local, throw when NULL, store (the field is NULL at this point: the File is closed)
+    m = re.match(r'FILE\*(\w+)=fopen\(', rest[0][1]) if rest[0][0] == 's' else None
+    if m and len(rest) == 4:
+        x = m.group(1)
+        if rest[1][0] == 'if' and rest[1][1] in (x + '==NULL', '!' + x) and throws_ioerror(rest[1][2]) and rest[1][3] is None and \
+           rest[2] == ('s', '%s=%s' % (f, x)) and rest[3] == ('s', 'returnself'):
+            return True
+    return False
 
 
 def generate(repo, emit, src, func_body):
     s = src('src/File.c')
-    b = func_body(s, r'static\s+void\s+File_Close\s*\(\s*var\s+self\s*\)\s*\{')
-    if not b or 'fclose' not in b:
-        emit('file_close_tests_closed', None)
-        emit('file_close_clears_always', None)
+    fs = functions(s)
+    helpers = guard_helpers(fs)
+    rel = release_helpers(fs)
+
+    if 'File_Close' not in fs:
+        emit('file_close_tests_closed', None); emit('file_close_clears_always', None)
     else:
-        i = b.find('fclose')
-        head = b[:i]
-        tests = bool(re.search(r'if\s*\(\s*f->file\s+is\s+NULL\s*\)\s*\{\s*throw\s*\(\s*IOError\b', head))
-        emit('file_close_tests_closed',
-             'Definition file_close_tests_closed : bool := %s.   (* File_Close: `if (f->file is NULL) { throw(IOError, …` before fclose *)'
+        tests, clears = analyse_close(fs['File_Close'][2], rel)
+        emit('file_close_tests_closed', None if tests is None else
+             'Definition file_close_tests_closed : bool := %s.   (* File_Close: the closed test (throw IOError) precedes fclose *)'
              % ('true' if tests else 'false'))
-        # the handle is cleared on every path iff `f->file = NULL` is executed before any throw that follows fclose
-        tail = b[i:]
-        t = tail.find('throw')
-        c = re.search(r'f->file\s*=\s*NULL\s*;', tail)
-        head_clear = re.search(r'f->file\s*=\s*NULL\s*;', head)      # e.g. FILE* fp = f->file; f->file = NULL; fclose(fp)
-        always = bool(head_clear) or (c is not None and (t < 0 or c.start() < t))
-        if c is None and not head_clear:
-            emit('file_close_clears_always', None)     # File_Close never clears the handle: the model does not apply
-        else:
-            emit('file_close_clears_always',
-                 'Definition file_close_clears_always : bool := %s.   (* File_Close: `f->file = NULL` precedes the throw on fclose failure *)'
-                 % ('true' if always else 'false'))
+        emit('file_close_clears_always', None if clears is None else
+             'Definition file_close_clears_always : bool := %s.   (* File_Close: the handle is cleared before any throw that follows fclose *)'
+             % ('true' if clears else 'false'))
+
     ok = True
-    for fn, ret in [('File_Seek', 'void'), ('File_Tell', 'int64_t'), ('File_Flush', 'void'), ('File_EOF', 'bool'),
-                    ('File_Read', 'size_t'), ('File_Write', 'size_t'), ('File_Format_To', 'int'), ('File_Format_From', 'int')]:
-        fb = func_body(s, r'static\s+%s\s+%s\s*\([^)]*\)\s*\{' % (ret, fn))
-        if not fb or not re.match(r'\{\s*struct\s+File\s*\*\s*f\s*=\s*self\s*;\s*if\s*\(\s*f->file\s+is\s+NULL\s*\)\s*\{\s*throw\s*\(\s*IOError\b', fb):
-            ok = False
-    emit('file_ops_guarded', 'Definition file_ops_guarded : bool := true.   (* all 8 stdio wrappers of File start with the closed-handle test *)' if ok else None)
-    d = func_body(s, r'static\s+void\s+File_Del\s*\(\s*var\s+self\s*\)\s*\{')
-    okd = bool(d) and re.search(r'if\s*\(\s*f->file\s+isnt\s+NULL\s*\)\s*\{\s*File_Close\s*\(\s*self\s*\)\s*;\s*\}', d)
-    o = func_body(s, r'static\s+var\s+File_Open\s*\([^)]*\)\s*\{')
-    oko = bool(o) and re.search(r'if\s*\(\s*f->file\s+isnt\s+NULL\s*\)\s*\{\s*File_Close\s*\(\s*self\s*\)\s*;\s*\}\s*f->file\s*=\s*fopen\s*\(', o)
-    emit('file_del_open_shape', 'Definition file_del_open_shape : bool := true.   (* File_Del / File_Open close only an open File; File_Open stores the result of fopen *)' if (okd and oko) else None)
-    # the Format sink: nothing between the closed test and the single vfprintf / vfscanf call on the stream
-    ft = func_body(s, r'static\s+int\s+File_Format_To\s*\([^)]*\)\s*\{')
-    ff = func_body(s, r'static\s+int\s+File_Format_From\s*\([^)]*\)\s*\{')
-    shape = r'\{\s*struct\s+File\s*\*\s*f\s*=\s*self\s*;\s*if\s*\(\s*f->file\s+is\s+NULL\s*\)\s*\{\s*throw\s*\([^;]*\)\s*;\s*\}\s*return\s+%s\s*\(\s*f->file\s*,\s*fmt\s*,\s*va\s*\)\s*;\s*\}\s*$'
-    okf = bool(ft) and bool(ff) and re.match(shape % 'vfprintf', ft) and re.match(shape % 'vfscanf', ff)
-    emit('file_format_direct', 'Definition file_format_direct : bool := true.   (* File_Format_To / _From: closed test, then exactly `return vfprintf/vfscanf(f->file, fmt, va);` *)' if okf else None)
+    rests = {}
+    for fn in ('File_Seek', 'File_Tell', 'File_Flush', 'File_EOF', 'File_Read', 'File_Write', 'File_Format_To', 'File_Format_From'):
+        if fn not in fs: ok = False; continue
+        g, env, rest = wrapper_guarded(fs[fn][2], helpers)
+        rests[fn] = (env, rest)
+        if not g: ok = False
+    emit('file_ops_guarded', 'Definition file_ops_guarded : bool := true.   (* in all 8 stdio wrappers of File the closed test (own or through a guard helper) dominates everything else *)' if ok else None)
+
+    okd = 'File_Del' in fs and analyse_del(fs['File_Del'][2])
+    oko = 'File_Open' in fs and analyse_open(fs['File_Open'][2])
+    emit('file_del_open_shape', 'Definition file_del_open_shape : bool := true.   (* File_Del / File_Open close only an open File; File_Open stores the result of fopen, NULL raises IOError *)' if (okd and oko) else None)
+
+    def direct(fn, call):
+        if not ok or fn not in rests: return False
+        env, rest = rests[fn]
+        if len(rest) != 1 or rest[0][0] != 's': return False
+        m = re.match(r'return%s\((.+),fmt,va\)$' % call, rest[0][1])
+        return bool(m) and m.group(1) in env.handles
+    okf = direct('File_Format_To', 'vfprintf') and direct('File_Format_From', 'vfscanf')
+    emit('file_format_direct', 'Definition file_format_direct : bool := true.   (* File_Format_To / _From: closed test, then exactly `return vfprintf/vfscanf(<the stream>, fmt, va);` *)' if okf else None)
